@@ -166,6 +166,7 @@ impl IntError for core::fmt::Error {
 /// # Arguments
 ///
 /// * `res` - result to convert.
+#[cfg_attr(kani, kani::ensures(|r: &i32| (*r == 0) == old(res.is_ok())))]
 pub fn into_int_result<T, E: IntError>(res: Result<T, E>) -> i32 {
     match res {
         Ok(_) => 0,
@@ -181,6 +182,8 @@ pub fn into_int_result<T, E: IntError>(res: Result<T, E>) -> i32 {
 ///
 /// * `res` - result to convert.
 /// * `ok_out` - target output for Ok value.
+#[cfg_attr(kani, kani::modifies(ok_out))]
+#[cfg_attr(kani, kani::ensures(|r: &i32| (*r == 0) == old(res.is_ok())))]
 pub fn into_int_out_result<T, E: IntError>(res: Result<T, E>, ok_out: &mut MaybeUninit<T>) -> i32 {
     match res {
         Ok(v) => {
@@ -202,6 +205,7 @@ pub fn into_int_out_result<T, E: IntError>(res: Result<T, E>, ok_out: &mut Maybe
 ///
 /// `ok_val` must be initialised if `res = 0`. This can be used safely in conjunction with
 /// `into_int_out_result`, assuming arguments are not modified in-between the calls.
+#[cfg_attr(kani, kani::ensures(|r: &Result<T, E>| r.is_ok() == (res == 0)))]
 pub unsafe fn from_int_result<T, E: IntError>(res: i32, ok_val: MaybeUninit<T>) -> Result<T, E> {
     match NonZeroI32::new(res) {
         None => Ok(ok_val.assume_init()),
@@ -214,6 +218,7 @@ pub unsafe fn from_int_result<T, E: IntError>(res: i32, ok_val: MaybeUninit<T>) 
 /// # Arguments
 ///
 /// * `res` - result int value. Value of `0` will return `Ok`.
+#[cfg_attr(kani, kani::ensures(|r: &Result<(), E>| r.is_ok() == (res == 0)))]
 pub fn from_int_result_empty<E: IntError>(res: i32) -> Result<(), E> {
     match NonZeroI32::new(res) {
         None => Ok(()),
